@@ -223,6 +223,7 @@ def run(ctx: Ctx):
     run_field_coords(ctx)
     run_latent_key_order(ctx)
     run_loop_nan_batches(ctx)
+    run_array_nan_batches(ctx)
 
 
 def run_nan_batches(ctx: Ctx):
@@ -337,7 +338,8 @@ def run_field_coords(ctx: Ctx):
         nf = 1 if f_coords is None or f_coords.ndim == 1 else f_coords.ndim - 1
         ng = 1 if g_coords is None or g_coords.ndim == 1 else g_coords.ndim - 1
         f, g = np.asarray(inputs['f'], dtype=float), np.asarray(inputs['g'], dtype=float)
-        return {'y': np.sum(f, axis=tuple(range(-nf, 0))) + 2.0 * np.max(g, axis=tuple(range(-ng, 0)))}
+        a = np.asarray(inputs['a'], dtype=float) if 'a' in inputs else 0.0        # a plain scalar input listed after the fields
+        return {'y': np.sum(f, axis=tuple(range(-nf, 0))) + 2.0 * np.max(g, axis=tuple(range(-ng, 0))) + 5.0 * a}
     for n in range(ctx.pick(10, 80)):
         nd = rng.randint(1, 3)
         sizes = [rng.randint(2, 4) for _ in range(nd)]
@@ -348,15 +350,19 @@ def run_field_coords(ctx: Ctx):
         fshape = tuple(sizes)
         vec = rng.random() < 0.5
         loop = tuple(rng.randint(1, 3) for _ in range(rng.randint(1, 2)))
-        comp = Component(model, [Variable('f'), Variable('g')], [Variable('y')], vectorized=vec, name=f'fc{n}')
+        with_scalar = n % 2 == 1      # every other case: a scalar input (one value per sample) listed after the field inputs
+        comp = Component(model, [Variable('f'), Variable('g')] + ([Variable('a')] if with_scalar else []), [Variable('y')], vectorized=vec, name=f'fc{n}')
         rs = np.random.RandomState(ctx.seed * 41 + n)
         f = rs.rand(*(loop + fshape)); g = rs.rand(*(loop + fshape))
         axes = tuple(range(-len(fshape), 0))
         want = np.sum(f, axis=axes) + 2.0 * np.max(g, axis=axes)
-        case = {'field_coords': n, 'grid_sizes': sizes, 'coords_shape': list(coords.shape), 'loop_shape': loop, 'vectorized': vec}
+        extra = {}
+        if with_scalar:
+            extra['a'] = rs.rand(*loop); want = want + 5.0 * extra['a']
+        case = {'field_coords': n, 'grid_sizes': sizes, 'coords_shape': list(coords.shape), 'loop_shape': loop, 'vectorized': vec, 'scalar_input_after_fields': with_scalar}
         ctx.case(case, nontrivial=nd >= 2, kind=f'field-coords:{nd}d')
-        for fname, call in (('call_model', lambda: comp.call_model({'f': f, 'g': g}, f_coords=coords, g_coords=coords)),
-                            ('predict(use_model)', lambda: comp.predict({'g': g, 'f': f}, use_model='best', f_coords=coords, g_coords=coords))):
+        for fname, call in (('call_model', lambda: comp.call_model({'f': f, 'g': g, **extra}, f_coords=coords, g_coords=coords)),
+                            ('predict(use_model)', lambda: comp.predict({'g': g, 'f': f, **extra}, use_model='best', f_coords=coords, g_coords=coords))):
             try:
                 y = np.asarray(call()['y'])
             except Exception as e:
@@ -428,3 +434,33 @@ def run_positional_keys(ctx: Ctx):
                 if not (systems.floats_close(out['y2'], y2) and systems.floats_close(out['y3'], y3)):
                     ctx.violate('C10:key-order-changes-result', f'{label} call with key order {list(perm)}: y2={np.asarray(out["y2"]).tolist()} '
                                 f'y3={np.asarray(out["y3"]).tolist()}, expected {y2.tolist()} {y3.tolist()}', case)
+
+
+def run_array_nan_batches(ctx: Ctx):
+    """a system input that is an array per sample (`var_shape`): a NaN inside ONE sample's array must not touch the other samples"""
+    from amisc import Component, System, Variable
+    rng = ctx.rng
+    for n in range(ctx.pick(6, 40)):
+        D = rng.randint(2, 4); N = rng.randint(3, 7)
+        vec = rng.random() < 0.5
+        u, a = Variable('u'), Variable('a', domain=(0, 5))
+        f1 = Component(lambda inputs: {'y': np.sum(inputs['u'], axis=-1) + inputs['a']}, [u, a], [Variable('y')], name='f1', vectorized=vec)
+        f2 = Component(lambda inputs: {'z': 2.0 * inputs['y'] - 1.0}, [Variable('y')], [Variable('z')], name='f2', vectorized=vec)
+        system = System(f1, f2, name=f'an{n}')
+        U = np.arange(1.0, 1.0 + N * D).reshape(N, D) / 4; A = np.linspace(0.5, 4.5, N)
+        bad = (rng.randrange(N), rng.randrange(D))
+        U[bad] = np.nan
+        kw = dict(use_model='best', normalized_inputs=False, var_shape={'u': (D,)})
+        case = {'array_nan_batch': n, 'N': N, 'D': D, 'nan_at': list(bad), 'vectorized': vec}
+        ctx.case(case, nontrivial=True, kind='nan-batch:array-input')
+        batch = {'u': U, 'a': A} if n % 2 == 0 else {'a': A, 'u': U}
+        try:
+            y = system.predict(batch, **kw)
+        except Exception as e:
+            ctx.violate('C10:predict-raises', f'{type(e).__name__}: {e}', case); continue
+        for j in range(N):
+            ys = system.predict({k: v[j:j + 1] for k, v in batch.items()}, **kw)
+            for k in ('y', 'z'):
+                if not systems.floats_close(np.ravel(y[k])[j], np.ravel(ys[k])[0]):
+                    ctx.violate('C10:batch-vs-single', f'sample {j} of {k}: {float(np.ravel(y[k])[j])} in a batch whose sample {bad[0]} has a NaN inside its array input, '
+                                f'{float(np.ravel(ys[k])[0])} alone', case); break
